@@ -143,6 +143,10 @@ def verify_hyperparameters(num_buckets=None,
   Raises:
     ValueError: If parameters are incorrect or inconsistent.
   """
+  if num_buckets is not None and num_buckets < 1:
+    raise ValueError(
+        "num_buckets must be at least 1. Given: {}".format(num_buckets))
+
   if output_min is not None and output_max is not None:
     if output_max < output_min:
       raise ValueError(
